@@ -10,7 +10,7 @@ import (
 func init() { register("C02", propC02) }
 
 func propC02(r *Report, tier string) {
-	r.Explanation = "Structural necessary conditions of 'a search returns exactly the live matching documents' (hit-set side only): (a) K8 every posting / doc-number source opened for a reader subtracts that segment's exclusion bitmap (no deleted document can be returned from scorch); (b) score:none bitmap algebra (unadorned optimisations): per-segment state is re-initialised in every iteration of the per-segment loop, and bitmaps obtained from ActualBitmap() (shared with every other reader of the segment) are only combined through allocating operations, never mutated in place; (c) K12 compound searchers never advance a child that is already at/after the target (a match would be lost), BooleanSearcher's cursor derivation agrees at all sites; (d) K13 every concrete query type's Searcher returns a non-nil searcher or a non-nil error."
+	r.Explanation = "Structural necessary conditions of 'a search returns exactly the live matching documents' (hit-set side only): (a) K8 every posting / doc-number source opened for a reader subtracts that segment's exclusion bitmap (no deleted document can be returned from scorch); (b) score:none bitmap algebra (unadorned optimisations): per-segment state is re-initialised in every iteration of the per-segment loop, and bitmaps obtained from ActualBitmap() (shared with every other reader of the segment) are only combined through allocating operations, never mutated in place; (c) K12 compound searchers never advance a child that is already at/after the target (a match would be lost), BooleanSearcher's cursor derivation agrees at all sites; (d) K13 every concrete query type's Searcher returns a non-nil searcher or a non-nil error. (g) K8 a successor helper whose result is used as the exclusive end of a prefix range over its own argument drops the overflowed bytes (x[:i+1]); (h) K14 the unadorned disjunction builds each per-segment result from all of its input collections unless the ignored one is provably empty; (i) K6 a nil ActualBitmap() is treated as 'skip', or as 'empty' only after DocNum1Hit() was excluded (1-hit postings of merged segments have no bitmap)."
 	r.NotCovered = "the meaning of each query kind (term/phrase/fuzzy/regexp/range semantics), analysis, independence of the hit set from scoring options beyond (b), upsidedown reader correctness, correctness of the compound merge loops"
 	ruleExclusionAtReadSites(r, "K8-exclusion-at-read-sites")
 	rulePerSegmentStateReset(r, "K5-per-segment-state-reset")
@@ -18,6 +18,9 @@ func propC02(r *Report, tier string) {
 	ruleLookAheadGuard(r, "K12-lookahead-guard")
 	ruleBooleanCursorSiblings(r, "K12-boolean-cursor-siblings")
 	ruleQuerySearcherNeverNilNil(r, "K13-searcher-never-nil-nil")
+	ruleSuccessorKeepsIncrementedByte(r, "K8-prefix-successor", func(rel string) bool { return !strings.HasPrefix(rel, storeBase) }, 3)
+	ruleUnionConsumesAllCollections(r, "K14-union-consumes-all-inputs", "index/scorch.(*OptimizeTFRDisjunctionUnadorned).Finish", "IndexSnapshotTermFieldReader", "iterators")
+	ruleNilActualBitmapIsNotEmpty(r, "K6-nil-actual-bitmap-is-not-empty")
 	r.Floor("K8-exclusion-at-read-sites", 6)
 	r.Floor("K5-per-segment-state-reset", 3)
 	r.Floor("K6-shared-bitmaps-immutable", 2)
